@@ -107,8 +107,9 @@ def qfork_monitors(r):
     want = [m for m in puts if m not in fail]
     if s.finished and r.sink.items != want[:len(r.sink.items)]:
         bad.append("sink order %r is not the put order %r (refused: %r)" % (r.sink.items, want, sorted(fail)))
-    if sorted(r.sink.failed) != sorted(m for m in puts if m in fail)[:len(r.sink.failed)]:
-        bad.append("refused messages %r, expected %r" % (r.sink.failed, [m for m in puts if m in fail]))
+    failed = getattr(r.sink, "failed", [])
+    if sorted(failed) != sorted(m for m in puts if m in fail)[:len(failed)]:
+        bad.append("refused messages %r, expected %r" % (failed, [m for m in puts if m in fail]))
     return bad
 
 
